@@ -1,3 +1,190 @@
-From Coq Require Import List Bool Arith.
-From Atlas Require Import Plan.SortModel.
+(** C04 -- plans respect dependencies for every foreign-key graph, including cycles.
+    Only statements, [exact], [Print Assumptions] and non-vacuity Examples live here.
+
+    Model (Plan/SortModel.v, function by function after sql/internal/sqlx/plan.go and sqlx_oss.go):
+      [plan cs] = DetachCycles (sortMap / dependencies / detachReferences) followed by
+      SortChanges (partition, hasE/edges over dependsOn, the DFS closure add).
+      [POut] is "a search ran out of fuel" (= the Go code would loop); there is no panic outcome
+      because the modelled code has no indexing / nil dereference on well-typed input.
+    Reference catalogue: [replay l c] runs the planned changes in order on the catalogue [c]
+      (existing tables, live foreign keys) and fails on: CREATE of an existing table, a foreign
+      key (inline, ADD, or re-pointed) to a table that does not exist at that moment, ALTER of a
+      missing table, DROP of a missing table, DROP of a table with a live foreign key from
+      another table.
+    [adds x] / [drops x]: the table name created / dropped by change x (SortReplay.v).
+    [WF cs]: what the differ can emit (SortProofs.v): every table in at most one of
+      add/drop/modify; object ids determine names; a dropped table's keys name it as child;
+      declared keys do not point at dropped tables.
+    [consistent c cs]: created tables are new, dropped and modified ones exist, parents of
+      declared keys exist or are created, every live key from another table into a dropped table
+      is dropped by the change set (its table is dropped with that key listed, or a
+      DropForeignKey / ModifyForeignKey of that symbol is present). *)
+From Coq Require Import List Bool Arith Permutation Sorted.
+From Atlas Require Import Plan.SortModel Plan.SortDfs Plan.SortReplay Plan.SortProofs Plan.SortDialect Plan.SortExamples.
 Import ListNotations.
+
+(** 1. "Plans never fail or loop because of a cycle": for EVERY change list -- any reference
+    graph, well-formed or not -- sortMap (fuel 1 + number of names in the dependency map),
+    DetachCycles and SortChanges (fuel 1 + number of changes) terminate with a plan. *)
+Theorem C04_total : forall cs : list change, exists l, plan cs = POk l.
+Proof. exact plan_total. Qed.
+
+Theorem C04_total_parts :
+  (forall cs, sortMap cs <> SMOut) /\
+  (forall cs, exists S, DetachCycles cs = DCOk S) /\
+  (forall S, exists l, SortChanges S = Some l).
+Proof.
+  exact (conj sortMap_total (conj DetachCycles_total
+          (fun S => let (out, H) := SortChanges_perm S in ex_intro _ out (proj1 H)))).
+Qed.
+
+(** 2. "Every table of the change set is created/dropped exactly once": for EVERY change list the
+    plan is a permutation of what DetachCycles returned, and detaching keeps the multiset of
+    table creations and of table drops (nothing is duplicated or lost, whatever the cycles). *)
+Theorem C04_once : forall cs l, plan cs = POk l ->
+  exists d, DetachCycles cs = DCOk d /\ Permutation d l /\
+    Permutation (flat_map adds cs) (flat_map adds l) /\
+    Permutation (flat_map drops cs) (flat_map drops l).
+Proof. exact plan_once. Qed.
+
+(** ... hence, for a well-formed change set, exactly once. *)
+Theorem C04_once_wf : forall cs l, WF cs -> plan cs = POk l ->
+  NoDup (flat_map adds l) /\ NoDup (flat_map drops l) /\
+  (forall n, In n (flat_map adds l) <-> In n (flat_map adds cs)) /\
+  (forall n, In n (flat_map drops l) <-> In n (flat_map drops cs)).
+Proof. exact plan_once_wf. Qed.
+
+(** ... and no declared foreign key is lost or duplicated: the (child, symbol, parent) triples declared
+    by the plan (inline in CREATE TABLE, by ADD / re-pointed in ALTER TABLE) are those of the input. *)
+Theorem C04_once_fks : forall cs l, plan cs = POk l -> Permutation (flat_map decl cs) (flat_map decl l).
+Proof. exact plan_once_fks. Qed.
+
+(** 3. "A table is created before any foreign key that points at it is declared, a table is
+    dropped only after every foreign key pointing at it has been dropped".
+
+    Full statement (FALSE of the faithful model and of the Go code, see C04_safe_refuted):
+      forall cs c, WF cs -> consistent c cs -> exists l c', plan cs = POk l /\ replay l c = Some c'.
+
+    Refutation: ModifyTable t0 [ModifyForeignKey .. To -> t1] + AddTable t1 [fk -> t0].  The
+    reference graph has the cycle t0 <-> t1, detachReferences keeps the ModifyForeignKey in
+    place and forgets the sortMap order, dependsOn has no ModifyForeignKey arm: the ALTER that
+    re-points the key to t1 is planned before CREATE TABLE t1.  Reproduced on mysql.DefaultPlan
+    and postgres.DefaultPlan (known finding C04-modfk-to-added-table-detached). *)
+Theorem C04_safe_refuted :
+  exists cs c l, WF cs /\ consistent c cs /\ plan cs = POk l /\ replay l c = None.
+Proof. exact (ex_intro _ cx_cs (ex_intro _ cx_cat (ex_intro _ cx_plan cx_refutes))). Qed.
+
+(** What does hold: the full statement for every well-formed change set and consistent catalogue,
+    with arbitrary reference graphs (chains, diamonds, self references, cycles of any length,
+    created / dropped / modified tables mixed), except when BOTH the graph has a cycle AND some
+    ModifyForeignKey re-points a key to a table created by the same change set. *)
+Theorem C04_safe_except : forall cs c,
+  WF cs -> consistent c cs ->
+  (sortMap cs = SMCycle -> no_repoint_to_added cs) ->
+  exists l c', plan cs = POk l /\ replay l c = Some c'.
+Proof. exact plan_safe_except. Qed.
+
+(** The same for every list Go's unstable sort.Slice may hand to SortChanges in the cycle-free
+    branch (any permutation sorted by the index map), not only the model's stable sort; and
+    SortChanges then only moves the drops to the end. *)
+Theorem C04_safe_except_any_tiebreak : forall cs c S,
+  WF cs -> consistent c cs ->
+  (sortMap cs = SMCycle -> no_repoint_to_added cs) ->
+  detach_spec cs S ->
+  SortChanges S = Some (partition_changes S) /\ exists c', replay (partition_changes S) c = Some c'.
+Proof. exact safe_except. Qed.
+
+(** The exception is exact.  [repoint_ordered cs]: every ModifyForeignKey whose new parent is
+    created by the change set stands after that AddTable in the change list.  With a cycle the plan
+    replays if and only if that holds (without a cycle it always replays). *)
+Theorem C04_safe_exact : forall cs c,
+  WF cs -> consistent c cs ->
+  exists l, plan cs = POk l /\
+    ((exists c', replay l c = Some c') <-> (sortMap cs = SMCycle -> repoint_ordered cs)).
+Proof. exact plan_safe_exact. Qed.
+
+(** The plans mysql.DefaultPlan / postgres.DefaultPlan carry in Plan.Changes[i].Source: both rewrite
+    a ModifyTable (re-pointed key = DROP + ADD; MySQL drops in a first ALTER, PostgreSQL puts the
+    constraint drops first inside one ALTER).  Under the same hypotheses all three plans replay. *)
+Theorem C04_safe_dialects : forall cs c,
+  WF cs -> consistent c cs ->
+  (sortMap cs = SMCycle -> repoint_ordered cs) ->
+  exists l, plan cs = POk l /\
+    (exists c1, replay l c = Some c1) /\
+    (exists c2, replay (flat_map mysql_sources l) c = Some c2) /\
+    (exists c3, replay (flat_map pg_sources l) c = Some c3).
+Proof. exact plan_dialect_safe. Qed.
+
+Print Assumptions C04_total.
+Print Assumptions C04_total_parts.
+Print Assumptions C04_once.
+Print Assumptions C04_once_wf.
+Print Assumptions C04_once_fks.
+Print Assumptions C04_safe_refuted.
+Print Assumptions C04_safe_except.
+Print Assumptions C04_safe_except_any_tiebreak.
+Print Assumptions C04_safe_exact.
+Print Assumptions C04_safe_dialects.
+
+(** Non-vacuity. *)
+(* C04_total / C04_once: a 3-cycle of created tables is planned (6 changes out of 3). *)
+Example C04_total_ex : plan c3_cs = POk c3_plan /\ length c3_plan = 6.
+Proof. vm_compute. split; reflexivity. Qed.
+
+Example C04_once_ex :
+  plan sr_cs = POk sr_plan /\ flat_map adds sr_plan = [0] /\ flat_map drops sr_plan = [1; 2].
+Proof. vm_compute. repeat split; reflexivity. Qed.
+
+Example C04_once_fks_ex :
+  plan c3_cs = POk c3_plan /\ flat_map decl c3_cs = [(0, 21, 1); (1, 22, 2); (2, 20, 0)] /\
+  flat_map decl c3_plan = [(0, 21, 1); (1, 22, 2); (2, 20, 0)].
+Proof. vm_compute. repeat split; reflexivity. Qed.
+
+Example C04_once_wf_ex : WF sr_cs /\ plan sr_cs = POk sr_plan.
+Proof. exact (conj sr_wf (proj1 (proj2 sr_runs))). Qed.
+
+(* C04_safe_except, cycle branch: 3-cycle of created tables *)
+Example C04_safe_ex_3cycle :
+  WF c3_cs /\ consistent c3_cat c3_cs /\ (sortMap c3_cs = SMCycle -> no_repoint_to_added c3_cs) /\
+  sortMap c3_cs = SMCycle /\ plan c3_cs = POk c3_plan /\
+  replay c3_plan c3_cat = Some (mkCat [2; 1; 0] [(0, 21, 1); (1, 22, 2); (2, 20, 0)]).
+Proof. exact (conj c3_wf (conj c3_cons (conj c3_norepoint c3_runs))). Qed.
+
+(* cycle branch: a created self-referencing table, a dropped self-referencing table in a 2-cycle of drops *)
+Example C04_safe_ex_selfref :
+  WF sr_cs /\ consistent sr_cat sr_cs /\ (sortMap sr_cs = SMCycle -> no_repoint_to_added sr_cs) /\
+  sortMap sr_cs = SMCycle /\ plan sr_cs = POk sr_plan /\
+  replay sr_plan sr_cat = Some (mkCat [0] [(0, 20, 0)]).
+Proof. exact (conj sr_wf (conj sr_cons (conj sr_norepoint sr_runs))). Qed.
+
+(* cycle-free branch: a re-pointed key to a created table IS ordered correctly there *)
+Example C04_safe_ex_chain :
+  WF ch_cs /\ consistent ch_cat ch_cs /\ (sortMap ch_cs = SMCycle -> no_repoint_to_added ch_cs) /\
+  sortMap ch_cs = SMOk [2; 1; 0] /\ plan ch_cs = POk ch_plan /\
+  replay ch_plan ch_cat = Some (mkCat [1; 2; 0] [(1, 22, 2); (0, 5, 1)]).
+Proof. exact (conj ch_wf (conj ch_cons (conj ch_norepoint ch_runs))). Qed.
+
+(* C04_safe_exact: the counterexample's two changes in the other order -- same cycle, re-pointed key
+   to a created table, but ordered: it replays; the counterexample itself is not ordered *)
+Example C04_safe_exact_ex :
+  WF or_cs /\ consistent cx_cat or_cs /\ sortMap or_cs = SMCycle /\ repoint_ordered or_cs /\
+  ~ no_repoint_to_added or_cs /\ plan or_cs = POk or_plan /\
+  replay or_plan cx_cat = Some (mkCat [1; 0; 2] [(0, 5, 1); (1, 21, 0)]) /\
+  sortMap cx_cs = SMCycle /\ ~ repoint_ordered cx_cs.
+Proof. exact or_exact_ex. Qed.
+
+(* the dialect plans of the chain example: the re-pointed key becomes DROP then ADD *)
+Example C04_safe_ex_dialects :
+  flat_map mysql_sources ch_plan =
+    [ AddTable (des 2) []; AddTable (des 1) [mkFK 22 (des 1) (des 2)];
+      ModifyTable (des 0) [DropFK (mkFK 5 (cur 0) (cur 3))];
+      ModifyTable (des 0) [AddFK (mkFK 5 (des 0) (des 1))];
+      DropTable (cur 3) [] ] /\
+  replay (flat_map mysql_sources ch_plan) ch_cat = Some (mkCat [1; 2; 0] [(1, 22, 2); (0, 5, 1)]) /\
+  replay (flat_map pg_sources ch_plan) ch_cat = Some (mkCat [1; 2; 0] [(1, 22, 2); (0, 5, 1)]).
+Proof. vm_compute. repeat split; reflexivity. Qed.
+
+Example C04_safe_ex_tiebreak : detach_spec ch_cs [AddTable (des 2) []; DropTable (cur 3) [];
+    AddTable (des 1) [mkFK 22 (des 1) (des 2)];
+    ModifyTable (des 0) [ModifyFK (mkFK 5 (cur 0) (cur 3)) (mkFK 5 (des 0) (des 1))]].
+Proof. exact ch_tiebreak. Qed.
